@@ -2229,21 +2229,99 @@ Proof.
   - exfalso. apply Hx. rewrite <- E. now apply in_map.
 Qed.
 
+(* the general step: a property the database KNOWS (not migrating) is stored under its canonical name with its canonical type
+   (find_canonical_property); one it does not know under its own name with the default type; `does not serialize` is skipped *)
+Definition pstepD (d : db) (sstr : list (bytes * bytes)) (lo : Z -> N) (cl : bs_class) (k : nat)
+                  (acc : bytes * list (bytes * value)) (pr : bs_prop) : bytes * list (bytes * value) :=
+  if negb (N.eqb (bp_class pr) (cls_id cl)) then acc else
+  match bp_body pr with
+  | BValues col =>
+    match wire_of_id (bs_col_type col) with
+    | None => acc
+    | Some ty =>
+      if bytes_eqb (bp_name pr) NAME then
+        match col with
+        | KString names => match nth_error names k with Some s0 => (BinValuesFacts2.str_norm s0, snd acc) | None => acc end
+        | _ => acc
+        end
+      else match find_canonical_property d ty (cls_name cl) (bp_name pr) with
+           | Ok (Some (nm, cty, None)) =>
+             match bs_col_values sstr lo col with
+             | Ok vals => match nth_error vals k with Some v => (fst acc, snd acc ++ [(nm, retype cty v)]) | None => acc end
+             | _ => acc
+             end
+           | _ => acc
+           end
+    end
+  | _ => acc
+  end.
+
+(* no PROP chunk of the list is subject to a migration *)
+Definition prop_nonmig (d : db) (cs : list bs_class) (pr : bs_prop) : bool :=
+  match find (fun c => N.eqb (cls_id c) (bp_class pr)) cs, bp_body pr with
+  | Some c, BValues col =>
+    match wire_of_id (bs_col_type col) with
+    | Some ty =>
+      bytes_eqb (bp_name pr) NAME ||
+      match find_canonical_property d ty (cls_name c) (bp_name pr) with
+      | Ok None => true
+      | Ok (Some (_, _, None)) => true
+      | _ => false
+      end
+    | None => true
+    end
+  | _, _ => true
+  end.
+
+Lemma prop_unknown_nonmig d cs pr : prop_unknown d cs pr = true -> prop_nonmig d cs pr = true.
+Proof.
+  unfold prop_unknown, prop_nonmig. destruct (find _ cs) as [c|]; [|reflexivity]. destruct (bp_body pr) as [col| |]; try reflexivity.
+  destruct (wire_of_id (bs_col_type col)) as [ty|]; [|reflexivity]. destruct (bytes_eqb (bp_name pr) NAME); [reflexivity|]. cbn [orb].
+  destruct (find_canonical_property d ty (cls_name c) (bp_name pr)) as [[[[nm cty] [mg|]]|]| | |]; try discriminate. reflexivity.
+Qed.
+
+Lemma pstepD_ext d sstr lo lo' cl k acc pr : (forall z, lo z = lo' z) -> pstepD d sstr lo cl k acc pr = pstepD d sstr lo' cl k acc pr.
+Proof. intros H. unfold pstepD. destruct (bp_body pr); try reflexivity. now rewrite (bs_col_values_ext sstr lo lo' c H). Qed.
+Lemma fold_pstepD_ext d sstr lo lo' cl k : (forall z, lo z = lo' z) -> forall l acc,
+  fold_left (pstepD d sstr lo cl k) l acc = fold_left (pstepD d sstr lo' cl k) l acc.
+Proof. intros H. induction l as [|pr l IH]; intros acc; [reflexivity|]. cbn [fold_left]. now rewrite (pstepD_ext d sstr lo lo' cl k acc pr H), IH. Qed.
+
+(* for properties the database does not know the general step is the step of 3n *)
+Lemma pstepD_unknown d cs sstr lo cl k acc pr : NoDup (List.map cls_id cs) -> In cl cs -> prop_unknown d cs pr = true ->
+  pstepD d sstr lo cl k acc pr = pstep sstr lo cl k acc pr.
+Proof.
+  intros Hids Hcl Hu. unfold pstepD, pstep. destruct (N.eqb (bp_class pr) (cls_id cl)) eqn:Ecl; cbn [negb]; [|reflexivity].
+  apply N.eqb_eq in Ecl. unfold prop_unknown in Hu.
+  destruct (find (fun c => N.eqb (cls_id c) (bp_class pr)) cs) as [c|] eqn:Ef.
+  2:{ exfalso. pose proof (find_none _ _ Ef cl Hcl) as Hn. cbv beta in Hn. rewrite Ecl, N.eqb_refl in Hn. discriminate. }
+  destruct (find_class_in _ _ _ Ef) as [Hc Hid]. assert (c = cl) by (apply (class_id_inj cs c cl Hids Hc Hcl); congruence). subst c.
+  destruct (bp_body pr) as [col| |]; try reflexivity. destruct (wire_of_id (bs_col_type col)) as [ty|]; [|reflexivity].
+  destruct (bytes_eqb (bp_name pr) NAME); [reflexivity|]. cbn [orb] in Hu.
+  destruct (find_canonical_property d ty (cls_name cl) (bp_name pr)) as [[[[nm cty] [mg|]]|]| | |]; try discriminate.
+  apply andb_true_iff in Hu. destruct Hu as [E1 E2]. apply BinFraming.beqb_true in E1. apply N.eqb_eq in E2. now subst.
+Qed.
+Lemma fold_pstepD_unknown d cs sstr lo cl k : NoDup (List.map cls_id cs) -> In cl cs -> forall l acc,
+  forallb (prop_unknown d cs) l = true -> fold_left (pstepD d sstr lo cl k) l acc = fold_left (pstep sstr lo cl k) l acc.
+Proof.
+  intros Hids Hcl. induction l as [|pr l IH]; intros acc H; [reflexivity|]. cbn [forallb] in H. apply andb_true_iff in H. destruct H as [H1 H2].
+  cbn [fold_left]. now rewrite (pstepD_unknown d cs sstr lo cl k acc pr Hids Hcl H1), IH.
+Qed.
+
 (* one step of the PROP phase: the record of every instance moves by [pstep]; labels, types, shared strings stay *)
 Lemma phase2_step d p st it st1 cs : dp_lim p = None -> ritem_ok it = true -> is_reg it = false ->
   rstep d p st it = Some st1 -> types_inv st cs -> reg_inv st cs -> NoDup (all_refs cs) -> NoDup (List.map cls_id cs) ->
   scan d cs (length (ds_sstr st)) [it] = true ->
-  match it with IProp pr => prop_unknown d cs pr = true | _ => True end ->
+  match it with IProp pr => prop_nonmig d cs pr = true | _ => True end ->
   types_inv st1 cs /\ reg_inv st1 cs /\ ds_sstr st1 = ds_sstr st /\ (forall z, st_label st1 z = st_label st z) /\
   forall cl k r, In cl cs -> nth_error (cls_refs cl) k = Some r ->
-    rec_of (D_of st1 r) = match it with IProp pr => pstep (st_sstr st) (st_label st) cl k (rec_of (D_of st r)) pr | _ => rec_of (D_of st r) end.
+    rec_of (D_of st1 r) = match it with IProp pr => pstepD d (st_sstr st) (st_label st) cl k (rec_of (D_of st r)) pr | _ => rec_of (D_of st r) end.
 Proof.
   intros Hl Hok Hreg Hs Hty Hri Hnd Hids Hscan Hunk.
   destruct it as [l|l|c|pr|rows| |n dta]; try discriminate; cbn [rstep] in Hs.
   - destruct (forallb _ l); [|discriminate]. injection Hs as <-. repeat split; auto.
   - (* PROP *)
     cbn [scan] in Hscan. rewrite andb_true_r in Hscan. unfold scan_prop in Hscan. apply andb_true_iff in Hscan. destruct Hscan as [Hu Hscan].
-    unfold prop_unknown in Hunk.
+    unfold prop_nonmig in Hunk.
     destruct (find (fun c => N.eqb (cls_id c) (bp_class pr)) cs) as [c|] eqn:Ef; [|discriminate].
     destruct (find_class_in _ _ _ Ef) as [Hc Hid]. pose proof (Hty c Hc) as Hlk. rewrite Hid in Hlk.
     assert (Hndc : NoDup (cls_refs c)) by exact (BinSpecAgree.NoDup_flat_map_each cls_refs cs c Hnd Hc).
@@ -2263,7 +2341,7 @@ Proof.
     destruct (bp_body pr) as [col| |ty raw] eqn:Hbody.
     + destruct (wire_of_id (bs_col_type col)) as [ty|] eqn:Hw.
       2:{ unfold rstep_values in Hs. rewrite Hw in Hs. injection Hs as <-. destruct (Hskip eq_refl) as (A & B & C & E & F).
-          repeat split; auto. intros cl k r Hcl Hr. unfold pstep. rewrite Hbody, Hw. now destruct (negb _). }
+          repeat split; auto. intros cl k r Hcl Hr. unfold pstepD. rewrite Hbody, Hw. now destruct (negb _). }
       apply andb_true_iff in Hscan. destruct Hscan as [Hlen Hscan]. apply Nat.eqb_eq in Hlen.
       destruct (bytes_eqb (bp_name pr) NAME) eqn:Hname.
       * destruct col; try discriminate.
@@ -2281,7 +2359,7 @@ Proof.
           destruct Hf as (i' & -> & _). discriminate. }
         split; [exact T2|]. split.
         { intros z. unfold st_label. destruct (Hfind z) as [_ Hf]. destruct (zfind z (ds_insts st)) as [i|]; [destruct Hf as (i' & -> & E); exact E|now rewrite Hf]. }
-        intros cl k r Hcl Hr. unfold pstep. rewrite Hbody. cbn [bs_col_type]. change (wire_of_id 1) with (Some WString). cbv iota. rewrite Hname.
+        intros cl k r Hcl Hr. unfold pstepD. rewrite Hbody. cbn [bs_col_type]. change (wire_of_id 1) with (Some WString). cbv iota. rewrite Hname.
         destruct (N.eqb (bp_class pr) (cls_id cl)) eqn:Ecl; cbn [negb].
         -- apply N.eqb_eq in Ecl. assert (cl = c).
            { apply (class_id_inj cs cl c Hids Hcl Hc). congruence. }
@@ -2291,7 +2369,12 @@ Proof.
         -- unfold D_of, BinFinish.dinst_of. now rewrite (P2 r (Hother cl r Hcl (nth_error_In _ _ Hr) Ecl)).
       * cbn [orb] in Hunk.
         destruct (find_canonical_property d ty (cls_name c) (bp_name pr)) as [[[[nm cty] [mg|]]|]| | |] eqn:Hcp; try discriminate.
-        apply andb_true_iff in Hunk. destruct Hunk as [Enm Ecty]. apply BinFraming.beqb_true in Enm. apply N.eqb_eq in Ecty. subst nm cty.
+        2:{ (* the database says: does not serialize — skipped *)
+            unfold rstep_values in Hs. cbn [dt_referents dt_name] in Hs. rewrite Hw, Hlen, Nat.eqb_refl, Hname, Hcp in Hs. cbn [negb] in Hs.
+            injection Hs as <-. destruct (Hskip eq_refl) as (A & B & C & E & F). repeat split; auto.
+            intros cl k r Hcl Hr. unfold pstepD. destruct (N.eqb (bp_class pr) (cls_id cl)) eqn:Ecl; cbn [negb]; [|reflexivity].
+            apply N.eqb_eq in Ecl. assert (cl = c) by (apply (class_id_inj cs cl c Hids Hcl Hc); congruence). subst cl.
+            now rewrite Hbody, Hw, Hname, Hcp. }
         apply andb_true_iff in Hscan. destruct Hscan as [Hrc Hcv].
         destruct (col_values_defined (st_sstr st) (st_label st) col) as (vals & Hv); [unfold st_sstr; now rewrite map_length|].
         assert (Hs' : rstep d p st (IProp pr) = Some st1) by (cbn [rstep]; rewrite Hu, Hlk, Hbody; exact Hs).
@@ -2309,18 +2392,18 @@ Proof.
           destruct Hf as (i' & -> & _). discriminate. }
         split; [exact T2|]. split.
         { intros z. unfold st_label. pose proof (Hfind z) as Hf. destruct (zfind z (ds_insts st)) as [i|]; [destruct Hf as (i' & -> & E); exact E|now rewrite Hf]. }
-        intros cl k r Hcl Hr. unfold pstep. rewrite Hbody, Hw, Hname, Hv.
+        intros cl k r Hcl Hr. unfold pstepD.
         destruct (N.eqb (bp_class pr) (cls_id cl)) eqn:Ecl; cbn [negb].
         -- apply N.eqb_eq in Ecl. assert (cl = c).
            { apply (class_id_inj cs cl c Hids Hcl Hc). congruence. }
-           subst cl.
+           subst cl. rewrite Hbody, Hw, Hname, Hcp, Hv.
            destruct (nth_error vals k) as [v|] eqn:Es; [|exfalso; exact (nth_error_Some_lt _ _ _ _ Hr Hvl Es)].
            destruct (P1 k r v Hr Es) as (i & Hi & Hi'). now rewrite (D_of_find st1 r _ Hi'), (D_of_find st r i Hi).
         -- unfold D_of, BinFinish.dinst_of. now rewrite (P2 r (Hother cl r Hcl (nth_error_In _ _ Hr) Ecl)).
     + injection Hs as <-. destruct (Hskip eq_refl) as (A & B & C & E & F). repeat split; auto.
-      intros cl k r Hcl Hr. unfold pstep. rewrite Hbody. now destruct (negb _).
+      intros cl k r Hcl Hr. unfold pstepD. rewrite Hbody. now destruct (negb _).
     + destruct (wire_of_id ty); [discriminate|]. injection Hs as <-. destruct (Hskip eq_refl) as (A & B & C & E & F). repeat split; auto.
-      intros cl k r Hcl Hr. unfold pstep. rewrite Hbody. now destruct (negb _).
+      intros cl k r Hcl Hr. unfold pstepD. rewrite Hbody. now destruct (negb _).
   - (* PRNT *)
     destruct (prnt_links (ds_insts st) (ds_roots st) rows) as [[i2 r2]| | |] eqn:E; try discriminate. injection Hs as <-.
     destruct (prnt_links_ok_spec _ _ _ _ _ E) as [_ Hf]. cbn [ds_types ds_insts ds_sstr fst]. split; [exact Hty|]. split.
@@ -2341,25 +2424,25 @@ Qed.
 Lemma phase2_run d p cs : dp_lim p = None -> NoDup (all_refs cs) -> NoDup (List.map cls_id cs) ->
   forall items st st', forallb ritem_ok items = true -> forallb (fun it => negb (is_reg it)) items = true ->
   run_steps d p st items = Some st' -> types_inv st cs -> reg_inv st cs -> scan d cs (length (ds_sstr st)) items = true ->
-  forallb (prop_unknown d cs) (bs_props items) = true ->
+  forallb (prop_nonmig d cs) (bs_props items) = true ->
   (forall z, st_label st' z = st_label st z) /\ ds_sstr st' = ds_sstr st /\
   forall cl k r, In cl cs -> nth_error (cls_refs cl) k = Some r ->
-    rec_of (D_of st' r) = fold_left (pstep (st_sstr st) (st_label st) cl k) (bs_props items) (rec_of (D_of st r)).
+    rec_of (D_of st' r) = fold_left (pstepD d (st_sstr st) (st_label st) cl k) (bs_props items) (rec_of (D_of st r)).
 Proof.
   intros Hl Hnd Hids. induction items as [|it r IH]; intros st st' Hok Hnr Hrun Hty Hri Hscan Hunk.
   - injection Hrun as <-. repeat split; auto.
   - cbn [forallb] in Hok, Hnr. apply andb_true_iff in Hok, Hnr. destruct Hok as [Hit Hok], Hnr as [Hn Hnr]. apply negb_true_iff in Hn.
     cbn [run_steps] in Hrun. destruct (rstep d p st it) as [st1|] eqn:Hs; [|discriminate].
     destruct (scan_nonreg d cs _ it r Hn Hscan) as [Hsc1 Hscr].
-    assert (Hu1 : match it with IProp pr => prop_unknown d cs pr = true | _ => True end).
+    assert (Hu1 : match it with IProp pr => prop_nonmig d cs pr = true | _ => True end).
     { destruct it; try exact I. unfold bs_props in Hunk. cbn [flat_map app forallb] in Hunk. apply andb_true_iff in Hunk. now destruct Hunk. }
-    assert (Hur : forallb (prop_unknown d cs) (bs_props r) = true).
+    assert (Hur : forallb (prop_nonmig d cs) (bs_props r) = true).
     { destruct it; unfold bs_props in *; cbn [flat_map app forallb] in Hunk; try exact Hunk. apply andb_true_iff in Hunk. now destruct Hunk. }
     destruct (phase2_step d p st it st1 cs Hl Hit Hn Hs Hty Hri Hnd Hids Hsc1 Hu1) as (T1 & R1 & S1 & L1 & P1).
     assert (Hss : st_sstr st1 = st_sstr st) by (unfold st_sstr; now rewrite S1).
     rewrite <- S1 in Hscr. destruct (IH st1 st' Hok Hnr Hrun T1 R1 Hscr Hur) as (L2 & S2 & P2).
     split; [intros z; now rewrite L2, L1|]. split; [now rewrite S2|].
-    intros cl k r0 Hcl Hr0. rewrite (P2 cl k r0 Hcl Hr0), (P1 cl k r0 Hcl Hr0), Hss, (fold_pstep_ext _ _ _ cl k L1).
+    intros cl k r0 Hcl Hr0. rewrite (P2 cl k r0 Hcl Hr0), (P1 cl k r0 Hcl Hr0), Hss, (fold_pstepD_ext d _ _ _ cl k L1).
     destruct it; unfold bs_props; cbn [flat_map app fold_left]; reflexivity.
 Qed.
 
@@ -2440,10 +2523,10 @@ Qed.
 
 (* name and properties of the decoded instance that corresponds to a node: the fold of [pstep] over the PROP chunks in chunk
    order, from (class name, no property); the property table is `collect_props` of that list, up to the UniqueId collision rule *)
-Definition node_rec (f : bs_file) (p : dec_params) (st : dstate) (props : list bs_prop) (n : bs_node) (i : inst) : Prop :=
+Definition node_rec (d : db) (f : bs_file) (p : dec_params) (st : dstate) (props : list bs_prop) (n : bs_node) (i : inst) : Prop :=
   exists cl k c pp, In (c, pp) (bf_prnt f) /\ n = mk_node (f_kids f) (f_ai f) (c, pp) /\ In cl (bf_classes f) /\
     nth_error (cls_refs cl) k = Some c /\
-    let R := fold_left (pstep (st_sstr st) (st_label st) cl k) props (cls_name cl, []) in
+    let R := fold_left (pstepD d (st_sstr st) (st_label st) cl k) props (cls_name cl, []) in
     i_name i = fst R /\ BinRoundTrip.uid_norm p (collect_props (snd R)) (i_props i).
 
 Theorem reader_decodes_spec_file_dom d p u order cmps f P1 P2 :
@@ -2453,12 +2536,12 @@ Theorem reader_decodes_spec_file_dom d p u order cmps f P1 P2 :
   forallb (fun it => negb (is_prop it)) P1 = true -> forallb (fun it => negb (is_reg it)) P2 = true ->
   Permutation (bs_insts P1) (bf_classes f) -> bs_prnts (P1 ++ P2) = [bf_prnt f] ->
   scan d [] 0 (P1 ++ P2) = true -> inst_prnt_ok false (P1 ++ P2) = true ->
-  scan d (bs_insts P1) (sstr_total P1) P2 = true -> forallb (prop_unknown d (bs_insts P1)) (bs_props P2) = true ->
+  scan d (bs_insts P1) (sstr_total P1) P2 = true -> forallb (prop_nonmig d (bs_insts P1)) (bs_props P2) = true ->
   exists st out nodes,
     run_items d p dstate0 (bs_items_of order f) = Some st /\
     decode_file d p (bs_enc_header (bs_header_of f) ++ gframe_all cmps (List.map (bs_enc_item rdA u) (bs_items_of order f))) = Ok out /\
     bspec_to_dom f = Ok nodes /\
-    same_dom (phi_of (f_kids f) (D_of st)) (node_rec f p st (bs_props P2)) nodes out.
+    same_dom (phi_of (f_kids f) (D_of st)) (node_rec d f p st (bs_props P2)) nodes out.
 Proof.
   intros Hl Hfok Hrt Hitems Hnp Hnr Hperm Hprnt Hscan Hipo Hscan2 Hunk.
   pose proof (file_dom_ok_sound f Hfok) as HF. destruct HF as [Hwf Hids Hrefs Hkids Hpk Hpar Hcf Htot].
@@ -2510,7 +2593,7 @@ Proof.
     pose proof (P2f cl k c Hcl1 Hk) as Hrecd. destruct (Hfr cl c Hcl1 (nth_error_In _ _ Hk)) as (i0 & Hi0 & Hn0 & Hp0).
     rewrite (D_of_find st1 c i0 Hi0) in Hrecd. unfold rec_of at 2 in Hrecd. rewrite Hn0, Hp0 in Hrecd.
     assert (Hss : st_sstr st = st_sstr st1) by (unfold st_sstr; now rewrite S2).
-    rewrite Hss, (fold_pstep_ext _ _ _ cl k L2), <- Hrecd. unfold rec_of. cbn [fst snd]. split; [exact Hnm|exact Hun].
+    rewrite Hss, (fold_pstepD_ext d _ _ _ cl k L2), <- Hrecd. unfold rec_of. cbn [fst snd]. split; [exact Hnm|exact Hun].
 Qed.
 
 (* ---- F4 as a theorem: two accepted chunk orders (each with its own per-chunk compression, rotation encoding, INST order — hence its
@@ -2527,14 +2610,14 @@ Theorem chunk_order_independent d p f u1 order1 cmps1 P1 P2 u2 order2 cmps2 P1' 
   Permutation (bs_insts P1') (bf_classes f) -> bs_prnts (P1' ++ P2') = [bf_prnt f] ->
   scan d [] 0 (P1 ++ P2) = true -> inst_prnt_ok false (P1 ++ P2) = true ->
   scan d [] 0 (P1' ++ P2') = true -> inst_prnt_ok false (P1' ++ P2') = true ->
-  scan d (bs_insts P1) (sstr_total P1) P2 = true -> forallb (prop_unknown d (bs_insts P1)) (bs_props P2) = true ->
-  scan d (bs_insts P1') (sstr_total P1') P2' = true -> forallb (prop_unknown d (bs_insts P1')) (bs_props P2') = true ->
+  scan d (bs_insts P1) (sstr_total P1) P2 = true -> forallb (prop_nonmig d (bs_insts P1)) (bs_props P2) = true ->
+  scan d (bs_insts P1') (sstr_total P1') P2' = true -> forallb (prop_nonmig d (bs_insts P1')) (bs_props P2') = true ->
   exists nodes st1 out1 st2 out2,
     bspec_to_dom f = Ok nodes /\
     decode_file d p (bs_enc_header (bs_header_of f) ++ gframe_all cmps1 (List.map (bs_enc_item rdA u1) (bs_items_of order1 f))) = Ok out1 /\
     decode_file d p (bs_enc_header (bs_header_of f) ++ gframe_all cmps2 (List.map (bs_enc_item rdA u2) (bs_items_of order2 f))) = Ok out2 /\
-    same_dom (phi_of (f_kids f) (D_of st1)) (node_rec f p st1 (bs_props P2)) nodes out1 /\
-    same_dom (phi_of (f_kids f) (D_of st2)) (node_rec f p st2 (bs_props P2')) nodes out2.
+    same_dom (phi_of (f_kids f) (D_of st1)) (node_rec d f p st1 (bs_props P2)) nodes out1 /\
+    same_dom (phi_of (f_kids f) (D_of st2)) (node_rec d f p st2 (bs_props P2')) nodes out2.
 Proof.
   intros Hl Hf R1 R2 I1 I2 A1 A2 B1 B2 C1 C2 D1 D2 E1 E2 F1 F2 G1 G2 H1 H2.
   destruct (reader_decodes_spec_file_dom d p u1 order1 cmps1 f P1 P2 Hl Hf R1 I1 A1 A2 C1 C2 E1 E2 G1 G2) as (st1 & out1 & n1 & _ & X1 & Y1 & Z1).
@@ -2542,7 +2625,669 @@ Proof.
   rewrite Y1 in Y2. injection Y2 as <-. exists n1, st1, out1, st2, out2. auto.
 Qed.
 
-(* ---- 3p. STATUS after the second round (supersedes 3i where they differ).
+(* ================================================================ 3q. the PROP fold = the node's own name and properties *)
+(* ---- association lists with pairwise distinct keys *)
+Lemma beq_refl a : bytes_eqb a a = true. Proof. apply name_eqb_refl. Qed.
+Lemma beq_neq a b : a <> b -> bytes_eqb a b = false.
+Proof. intros H. destruct (bytes_eqb a b) eqn:E; [|reflexivity]. apply BinSpecFacts.bytes_eqb_eq in E. contradiction. Qed.
+
+Lemma bfind_bremove' {V} k k' (m : list (bytes * V)) : bfind k (bremove k' m) = if bytes_eqb k k' then None else bfind k m.
+Proof.
+  induction m as [|[k1 v1] m IH]; cbn [bremove bfind]; [now destruct (bytes_eqb k k')|].
+  destruct (bytes_eqb k' k1) eqn:E1.
+  - apply BinSpecFacts.bytes_eqb_eq in E1. subst k1. rewrite IH. destruct (bytes_eqb k k'); reflexivity.
+  - cbn [bfind]. rewrite IH. destruct (bytes_eqb k k') eqn:E; [|reflexivity].
+    apply BinSpecFacts.bytes_eqb_eq in E. subst k'. now rewrite E1.
+Qed.
+Lemma bfind_bupd' {V} k k' (v : V) m : bfind k (bupd k' v m) = if bytes_eqb k k' then Some v else bfind k m.
+Proof. unfold bupd. cbn [bfind]. destruct (bytes_eqb k k') eqn:E; [reflexivity|]. now rewrite bfind_bremove', E. Qed.
+Lemma collect_props_snoc' l k v : collect_props (l ++ [(k, v)]) = bupd k v (collect_props l).
+Proof. unfold collect_props. rewrite fold_left_app. reflexivity. Qed.
+
+Lemma bfind_notin {V} k (l : list (bytes * V)) : ~ In k (List.map fst l) -> bfind k l = None.
+Proof.
+  induction l as [|[k1 v1] l IH]; intros H; [reflexivity|]. cbn [bfind]. cbn [List.map fst] in H.
+  rewrite beq_neq by (intros ->; apply H; now left). apply IH. intros Hi. apply H. now right.
+Qed.
+Lemma bfind_app {V} k (a b : list (bytes * V)) : bfind k (a ++ b) = match bfind k a with Some v => Some v | None => bfind k b end.
+Proof. induction a as [|[k1 v1] a IH]; [reflexivity|]. cbn [app bfind]. destruct (bytes_eqb k k1); [reflexivity|exact IH]. Qed.
+
+(* the table the reader builds from a property list with pairwise distinct names is that list *)
+Lemma bfind_collect_nodup l : NoDup (List.map fst l) -> forall k, bfind k (collect_props l) = bfind k l.
+Proof.
+  induction l as [|[k1 v1] l IH] using rev_ind; intros Hnd k; [reflexivity|].
+  rewrite map_app in Hnd. cbn [List.map fst] in Hnd. rewrite collect_props_snoc', bfind_bupd', bfind_app. cbn [bfind].
+  rewrite IH by (now apply BinFinish.NoDup_app_left in Hnd). destruct (bytes_eqb k k1) eqn:E; [|now destruct (bfind k l)].
+  apply BinSpecFacts.bytes_eqb_eq in E. subst k1. rewrite bfind_notin; [reflexivity|].
+  intros Hin. eapply BinFinish.NoDup_app_not; [exact Hnd|exact Hin|now left].
+Qed.
+
+Lemma bfind_in_nodup {V} (l : list (bytes * V)) k v : NoDup (List.map fst l) -> In (k, v) l -> bfind k l = Some v.
+Proof.
+  induction l as [|[k1 v1] l IH]; intros Hnd Hin; [destruct Hin|]. cbn [List.map fst] in Hnd. apply NoDup_cons_iff in Hnd. destruct Hnd as [Hn Hnd].
+  cbn [bfind]. destruct Hin as [E|Hin].
+  - injection E as -> ->. now rewrite beq_refl.
+  - rewrite beq_neq; [now apply IH|]. intros ->. apply Hn. apply in_map_iff. exists (k1, v). now split.
+Qed.
+Lemma bfind_some_in {V} (l : list (bytes * V)) k v : bfind k l = Some v -> In (k, v) l.
+Proof.
+  induction l as [|[k1 v1] l IH]; [discriminate|]. cbn [bfind]. destruct (bytes_eqb k k1) eqn:E.
+  - intros [= ->]. apply BinSpecFacts.bytes_eqb_eq in E. subst. now left.
+  - intros H. right. now apply IH.
+Qed.
+(* ... and does not depend on the order of the list *)
+Lemma bfind_perm {V} (a b : list (bytes * V)) : NoDup (List.map fst a) -> Permutation a b -> forall k, bfind k a = bfind k b.
+Proof.
+  intros Hnd Hp k. assert (Hndb : NoDup (List.map fst b)) by (eapply Permutation_NoDup; [apply Permutation_map; exact Hp|exact Hnd]).
+  destruct (bfind k a) as [v|] eqn:Ea.
+  - symmetry. apply bfind_in_nodup; [exact Hndb|]. eapply Permutation_in; [exact Hp|]. now apply bfind_some_in.
+  - destruct (bfind k b) as [v|] eqn:Eb; [|reflexivity]. apply bfind_some_in in Eb.
+    rewrite (bfind_in_nodup a k v Hnd) in Ea; [discriminate|]. eapply Permutation_in; [symmetry; exact Hp|exact Eb].
+Qed.
+Lemma bfind_map_snd {V W} (T : V -> W) (l : list (bytes * V)) k :
+  bfind k (List.map (fun kv => (fst kv, T (snd kv))) l) = option_map T (bfind k l).
+Proof. induction l as [|[k1 v1] l IH]; [reflexivity|]. cbn [List.map bfind fst snd]. destruct (bytes_eqb k k1); [reflexivity|exact IH]. Qed.
+
+(* ---- values: relabelling of referents, and the default canonical type *)
+Definition relabel (phi : N -> N) (v : value) : value :=
+  match v with
+  | VRef l => VRef (phi l)
+  | VContent (CObject l) => VContent (CObject (phi l))
+  | _ => v
+  end.
+
+Lemma retype_relabel cty phi v : retype cty (relabel phi v) = relabel phi (retype cty v).
+Proof.
+  destruct v; cbn [relabel retype]; repeat match goal with |- context [N.eqb ?a ?b] => destruct (N.eqb a b) end;
+    try reflexivity; match goal with c : content |- _ => destruct c; reflexivity end.
+Qed.
+
+(* for the canonical type the reader gives a property it does not know, [retype] only turns String values into BinaryString *)
+Lemma retype_default_col sstr lo col ty vals : wire_of_id (bs_col_type col) = Some ty -> bs_col_values sstr lo col = Ok vals ->
+  List.map (retype (to_default_rbx_type ty)) vals = List.map (retype VT_BinaryString) vals.
+Proof.
+  intros Hw Hv. destruct col; vm_compute in Hw; try discriminate; injection Hw as <-;
+    try (cbn [bs_col_values] in Hv; injection Hv as <-; rewrite !map_map; apply map_ext; intros x;
+         repeat match goal with y : (_ * _)%type |- _ => destruct y end; reflexivity).
+  (* SharedString *)
+  revert vals Hv. cbn [bs_col_values]. induction l as [|i r IH]; intros vals; [now intros [= <-]|].
+  destruct (if N.ltb i (N.of_nat (length sstr)) then nth_error sstr (N.to_nat i) else None) as [e|]; [|discriminate].
+  match goal with |- (rest <- ?G ;; _) = _ -> _ => destruct G as [rs| | |] eqn:E end; cbn [rbind]; try discriminate.
+  intros [= <-]. cbn [List.map]. f_equal. now apply IH.
+Qed.
+
+(* the reader's column values = the document's, relabelled *)
+Lemma bs_col_values_relabel sstr sstr' lo phi col vals :
+  List.map snd sstr' = List.map snd sstr ->
+  bs_col_values sstr lo col = Ok vals ->
+  bs_col_values sstr' (fun z => phi (lo z)) col = Ok (List.map (relabel phi) vals).
+Proof.
+  intros Hs Hv. destruct col; try (cbn [bs_col_values] in Hv |- *; injection Hv as <-; rewrite map_map; f_equal; apply map_ext; intros x;
+    repeat match goal with y : (_ * _)%type |- _ => destruct y end; try reflexivity; destruct x; reflexivity).
+  - (* SharedString *)
+    revert vals Hv. cbn [bs_col_values].
+    assert (Hlen : length sstr' = length sstr) by (rewrite <- (map_length snd sstr'), Hs; apply map_length).
+    induction l as [|i r IH]; intros vals; [now intros [= <-]|]. rewrite Hlen.
+    destruct (N.ltb i (N.of_nat (length sstr))); [|discriminate].
+    assert (Hn : option_map snd (nth_error sstr' (N.to_nat i)) = option_map snd (nth_error sstr (N.to_nat i))) by (rewrite <- !nth_error_map; now rewrite Hs).
+    destruct (nth_error sstr (N.to_nat i)) as [e|]; [|discriminate]. destruct (nth_error sstr' (N.to_nat i)) as [e'|]; [|discriminate].
+    cbn [option_map] in Hn. injection Hn as Hn.
+    match goal with |- (rest <- ?G ;; _) = _ -> _ => destruct G as [rs| | |] eqn:E end; cbn [rbind]; try discriminate.
+    intros [= <-]. rewrite Hlen in IH. rewrite (IH rs eq_refl). cbn [rbind List.map relabel]. now rewrite Hn.
+Qed.
+
+Lemma last_indep {A} : forall (l : list A) y d d', last (y :: l) d = last (y :: l) d'.
+Proof. induction l as [|z l IH]; intros y d d'; [reflexivity|]. cbn [last] in *. apply (IH z). Qed.
+Lemma last_cons {A} (x : A) l d : last (x :: l) d = last l x.
+Proof. destruct l as [|y l]; [reflexivity|]. change (last (x :: y :: l) d) with (last (y :: l) d). apply last_indep. Qed.
+
+(* ---- the fold, taken apart: the names and the (name, value) pairs each PROP chunk contributes to the k-th instance of [cl] *)
+Section FoldShape.
+Variable cl : bs_class.
+Variable k : nat.
+Definition psel (pr : bs_prop) : bool := N.eqb (bp_class pr) (cls_id cl).
+Definition is_NAME (pr : bs_prop) : bool := bytes_eqb (bp_name pr) NAME.
+
+Definition rprop (sstr : list (bytes * bytes)) (lo : Z -> N) (pr : bs_prop) : list (bytes * value) :=
+  if negb (psel pr) then [] else
+  match bp_body pr with
+  | BValues col =>
+    match wire_of_id (bs_col_type col) with
+    | Some ty => if is_NAME pr then [] else
+                 match bs_col_values sstr lo col with
+                 | Ok vals => match nth_error vals k with Some v => [(bp_name pr, retype (to_default_rbx_type ty) v)] | None => [] end
+                 | _ => [] end
+    | None => []
+    end
+  | _ => []
+  end.
+Definition rname (pr : bs_prop) : list bytes :=
+  if negb (psel pr) then [] else
+  match bp_body pr with
+  | BValues (KString names) =>
+    if is_NAME pr then match nth_error names k with Some s0 => [BinValuesFacts2.str_norm s0] | None => [] end else []
+  | _ => []
+  end.
+
+Lemma fold_pstep_shape sstr lo : forall l acc,
+  fold_left (pstep sstr lo cl k) l acc = (last (flat_map rname l) (fst acc), snd acc ++ flat_map (rprop sstr lo) l).
+Proof.
+  induction l as [|pr l IH]; intros [nm ps]; [cbn; now rewrite app_nil_r|].
+  cbn [fold_left flat_map]. rewrite IH. unfold pstep, rname, rprop, psel, is_NAME.
+  destruct (negb (N.eqb (bp_class pr) (cls_id cl))); [reflexivity|].
+  destruct (bp_body pr) as [col| |]; try reflexivity.
+  destruct (wire_of_id (bs_col_type col)) as [ty|] eqn:Hw.
+  2:{ destruct col; try reflexivity. vm_compute in Hw. discriminate. }
+  destruct (bytes_eqb (bp_name pr) NAME).
+  - destruct col; try reflexivity. destruct (nth_error l0 k) as [s0|]; [|reflexivity]. cbn [fst snd app].
+    f_equal. cbn [app]. symmetry. apply last_cons.
+  - assert (Hn : (match col with KString _ => @nil bytes | _ => [] end) = []) by (now destruct col).
+    replace (match col with KString names => [] | _ => [] end) with (@nil bytes) by (now destruct col). cbn [app].
+    destruct (bs_col_values sstr lo col) as [vals| | |]; try reflexivity.
+    destruct (nth_error vals k) as [v|]; [|reflexivity]. cbn [fst snd]. now rewrite <- app_assoc.
+Qed.
+End FoldShape.
+
+(* ---- the document's side: the properties and the name of the node, taken apart the same way *)
+Lemma filter_flat_map {A B} (f : B -> bool) (g : A -> list B) l : filter f (flat_map g l) = flat_map (fun x => filter f (g x)) l.
+Proof.
+  induction l as [|x l IH]; [reflexivity|]. cbn [flat_map]. rewrite <- IH. clear IH.
+  induction (g x) as [|y r IHr]; [reflexivity|]. cbn [app filter]. destruct (f y); cbn [app]; now rewrite IHr.
+Qed.
+Lemma map_flat_map' {A B C} (f : B -> C) (g : A -> list B) l : List.map f (flat_map g l) = flat_map (fun x => List.map f (g x)) l.
+Proof. induction l as [|x l IH]; [reflexivity|]. cbn [flat_map]. now rewrite map_app, IH. Qed.
+Lemma flat_map_ext_in {A B} (f g : A -> list B) l : (forall x, In x l -> f x = g x) -> flat_map f l = flat_map g l.
+Proof. induction l as [|x l IH]; intros H; [reflexivity|]. cbn [flat_map]. rewrite (H x (or_introl eq_refl)), IH; [reflexivity|]. intros y Hy. apply H. now right. Qed.
+
+Definition name_strs (l : list (bytes * value)) : list bytes :=
+  flat_map (fun kv => if bytes_eqb (fst kv) NAME_PROP_NAME then match snd kv with VString s0 => [s0] | _ => [] end else []) l.
+Lemma take_name_fst l : fst (take_name l) = hd_error (name_strs l).
+Proof.
+  induction l as [|[k0 v] l IH]; [reflexivity|]. cbn [take_name name_strs flat_map fst snd]. fold (name_strs l).
+  destruct (take_name l) as [nm rest]. cbn [fst] in IH. destruct (bytes_eqb k0 NAME_PROP_NAME); [|exact IH].
+  destruct v; try exact IH. reflexivity.
+Qed.
+
+Definition has_vals (pr : bs_prop) : bool := match bp_body pr with BValues _ => true | _ => false end.
+
+Section SpecShape.
+Variable cl : bs_class.
+Variable k : nat.
+Variable sstr : list (bytes * bytes).
+Variable lo : Z -> N.
+
+Definition sprop (pr : bs_prop) : list (bytes * value) :=
+  if negb (psel cl pr) then [] else
+  match BinSpecAgree.body_values sstr lo (bp_body pr) with
+  | Some vs => match nth_error vs k with Some v => [(bp_name pr, v)] | None => [] end
+  | None => []
+  end.
+
+Lemma row_ccols ps : BinSpecAgree.row k (BinSpecAgree.ccols sstr lo (cls_id cl) ps) = flat_map sprop ps.
+Proof.
+  unfold BinSpecAgree.row, BinSpecAgree.ccols. rewrite BinSpecAgree.flat_map_flat_map. apply flat_map_ext_in. intros pr _.
+  unfold sprop, psel. destruct (N.eqb (bp_class pr) (cls_id cl)); [|reflexivity]. cbn [negb].
+  destruct (BinSpecAgree.body_values sstr lo (bp_body pr)) as [vs|]; [|reflexivity]. cbn [flat_map fst snd]. now rewrite app_nil_r.
+Qed.
+
+(* what the file must satisfy, property by property, for the reader to see what the document says (each clause has its witness:
+   bytecode_column_skipped, name_prop_not_string_refuted, string_not_utf8_refuted) *)
+Definition prop_file_ok (pr : bs_prop) : Prop :=
+  match bp_body pr with
+  | BValues col => wire_of_id (bs_col_type col) <> None /\ (exists vals, bs_col_values sstr lo col = Ok vals) /\
+                   (is_NAME pr = true -> exists names, col = KString names /\ forallb utf8_valid names = true)
+  | _ => True
+  end.
+
+Lemma rname_sname pr : prop_file_ok pr -> rname cl k pr = name_strs (sprop pr).
+Proof.
+  unfold prop_file_ok, rname, sprop. intros H. destruct (negb (psel cl pr)); [reflexivity|].
+  destruct (bp_body pr) as [col| |]; try reflexivity. destruct H as (_ & (vals & Hv) & Hn). cbn [BinSpecAgree.body_values]. rewrite Hv.
+  unfold is_NAME in *. destruct (bytes_eqb (bp_name pr) NAME) eqn:E.
+  - destruct (Hn eq_refl) as (names & -> & Hu). cbn [bs_col_values] in Hv. injection Hv as <-. rewrite nth_error_map.
+    destruct (nth_error names k) as [s0|] eqn:Es; [|reflexivity]. cbn [option_map name_strs flat_map fst snd].
+    change NAME_PROP_NAME with NAME. rewrite E. cbn [app]. f_equal. apply BinValuesFacts2.str_norm_valid.
+    exact (fa_in _ _ Hu s0 (nth_error_In _ _ Es)).
+  - replace (match col with KString names => [] | _ => [] end) with (@nil bytes) by (now destruct col).
+    destruct (nth_error vals k); [|reflexivity]. cbn [name_strs flat_map fst snd]. change NAME_PROP_NAME with NAME. now rewrite E.
+Qed.
+
+Definition sprop' (pr : bs_prop) : list (bytes * value) := filter (fun kv => negb (BinSpecAgree.is_name_cell kv)) (sprop pr).
+
+Lemma map_eq_nth {A B} (f g : A -> B) l j a : List.map f l = List.map g l -> nth_error l j = Some a -> f a = g a.
+Proof.
+  revert j. induction l as [|x l IH]; intros [|j] H E; try discriminate; cbn [List.map nth_error] in *; injection H as H1 H2.
+  - now injection E as <-.
+  - exact (IH j H2 E).
+Qed.
+
+Variable sstr' : list (bytes * bytes).
+Variable phi : N -> N.
+Hypothesis Hss : List.map snd sstr' = List.map snd sstr.
+
+Definition Tval (v : value) : value := relabel phi (retype VT_BinaryString v).
+
+Lemma rprop_sprop pr : prop_file_ok pr ->
+  rprop cl k sstr' (fun z => phi (lo z)) pr = List.map (fun kv => (fst kv, Tval (snd kv))) (sprop' pr).
+Proof.
+  unfold prop_file_ok, rprop, sprop', sprop. intros H. destruct (negb (psel cl pr)); [reflexivity|].
+  destruct (bp_body pr) as [col| |]; try reflexivity. destruct H as (Hw & (vals & Hv) & Hn). cbn [BinSpecAgree.body_values]. rewrite Hv.
+  destruct (wire_of_id (bs_col_type col)) as [ty|] eqn:Ew; [|contradiction].
+  rewrite (bs_col_values_relabel sstr sstr' lo phi col vals Hss Hv), nth_error_map.
+  unfold is_NAME in *. destruct (bytes_eqb (bp_name pr) NAME) eqn:E.
+  - destruct (Hn eq_refl) as (names & -> & _). cbn [bs_col_values] in Hv. injection Hv as <-. rewrite nth_error_map.
+    destruct (nth_error names k); [|reflexivity]. cbn [option_map filter]. unfold BinSpecAgree.is_name_cell. cbn [fst snd]. change NAME_PROP_NAME with NAME. now rewrite E.
+  - destruct (nth_error vals k) as [v|] eqn:Ev; [|reflexivity]. cbn [option_map filter]. unfold BinSpecAgree.is_name_cell. cbn [fst snd].
+    change NAME_PROP_NAME with NAME. rewrite E. cbn [andb negb List.map fst snd]. unfold Tval. rewrite retype_relabel.
+    now rewrite (map_eq_nth _ _ vals k v (retype_default_col sstr lo col ty vals Ew Hv) Ev).
+Qed.
+End SpecShape.
+
+(* ---- at most one value-carrying PROP per (class, property name) *)
+Section Uniq.
+Variable cl : bs_class.
+Definition pq (pr : bs_prop) : bool := psel cl pr && has_vals pr.
+
+Lemma keys_in {V} (g : bs_prop -> list (bytes * V)) :
+  (forall pr, g pr = [] \/ (pq pr = true /\ exists v, g pr = [(bp_name pr, v)])) ->
+  forall l key, In key (List.map fst (flat_map g l)) -> In key (List.map bp_name (filter pq l)).
+Proof.
+  intros G. induction l as [|pr l IH]; intros key Hin; [destruct Hin|]. cbn [flat_map] in Hin. rewrite map_app in Hin. cbn [filter].
+  apply in_app_or in Hin. destruct Hin as [Hin|Hin].
+  - destruct (G pr) as [E|(Hq & v & E)]; rewrite E in Hin; [destruct Hin|]. rewrite Hq. destruct Hin as [<-|[]]. now left.
+  - destruct (pq pr); [right|]; now apply IH.
+Qed.
+
+Lemma keys_nodup {V} (g : bs_prop -> list (bytes * V)) :
+  (forall pr, g pr = [] \/ (pq pr = true /\ exists v, g pr = [(bp_name pr, v)])) ->
+  forall l, NoDup (List.map bp_name (filter pq l)) -> NoDup (List.map fst (flat_map g l)).
+Proof.
+  intros G. induction l as [|pr l IH]; intros Hnd; [constructor|]. cbn [flat_map filter] in *. rewrite map_app.
+  destruct (G pr) as [E|(Hq & v & E)]; rewrite E; cbn [List.map app fst].
+  - apply IH. destruct (pq pr); [now apply NoDup_cons_iff in Hnd|exact Hnd].
+  - rewrite Hq in Hnd. cbn [List.map] in Hnd. apply NoDup_cons_iff in Hnd. destruct Hnd as [Hn Hnd]. constructor; [|now apply IH].
+    intros Hin. apply Hn. now apply (keys_in g G).
+Qed.
+
+Lemma names_len1 (g : bs_prop -> list bytes) :
+  (forall pr, g pr = [] \/ (pq pr = true /\ is_NAME pr = true /\ exists s0, g pr = [s0])) ->
+  forall l, NoDup (List.map bp_name (filter pq l)) -> (length (flat_map g l) <= 1)%nat.
+Proof.
+  intros G. induction l as [|pr l IH]; intros Hnd; [cbn; lia|]. cbn [flat_map filter] in *. rewrite app_length.
+  destruct (G pr) as [E|(Hq & Hn & s0 & E)]; rewrite E; cbn [length].
+  - apply IH. destruct (pq pr); [now apply NoDup_cons_iff in Hnd|exact Hnd].
+  - rewrite Hq in Hnd. cbn [List.map] in Hnd. apply NoDup_cons_iff in Hnd. destruct Hnd as [Hni _].
+    assert (Hz : flat_map g l = []).
+    { clear IH. induction l as [|pr' l IHl]; [reflexivity|]. cbn [flat_map filter] in *.
+      destruct (G pr') as [E'|(Hq' & Hn' & s1 & E')].
+      - rewrite E'. cbn [app]. apply IHl. intros Hin. apply Hni. destruct (pq pr'); [now right|exact Hin].
+      - exfalso. apply Hni. rewrite Hq'. left. unfold is_NAME in *. apply BinSpecFacts.bytes_eqb_eq in Hn, Hn'. congruence. }
+    rewrite Hz. cbn. lia.
+Qed.
+End Uniq.
+
+Lemma perm_len1 {A} (a b : list A) : Permutation a b -> (length b <= 1)%nat -> a = b.
+Proof.
+  intros Hp Hl. destruct b as [|x [|y b]]; [| |cbn in Hl; lia].
+  - apply Permutation_sym, Permutation_nil in Hp. exact Hp.
+  - apply Permutation_sym, Permutation_length_1_inv in Hp. exact Hp.
+Qed.
+
+(* ---- THE IDENTIFICATION: the fold over the PROP chunks in ANY order = the node's own name and property table *)
+Theorem fold_is_node cl k sstr lo sstr' phi (P props : list bs_prop) :
+  List.map snd sstr' = List.map snd sstr -> Permutation P props ->
+  (forall pr, In pr props -> prop_file_ok sstr lo pr) ->
+  NoDup (List.map bp_name (filter (pq cl) props)) ->
+  let R := fold_left (pstep sstr' (fun z => phi (lo z)) cl k) P (cls_name cl, []) in
+  let ps := BinSpecAgree.row k (BinSpecAgree.ccols sstr lo (cls_id cl) props) in
+  fst R = match fst (take_name ps) with Some s0 => s0 | None => cls_name cl end /\
+  forall key, bfind key (collect_props (snd R)) = option_map (Tval phi) (bfind key (snd (take_name ps))).
+Proof.
+  intros Hss Hperm Hok Hu. cbv zeta. rewrite fold_pstep_shape, row_ccols, take_name_fst, BinSpecAgree.take_name_snd. cbn [fst snd app].
+  assert (HokP : forall pr, In pr P -> prop_file_ok sstr lo pr) by (intros pr Hpr; apply Hok; eapply Permutation_in; eauto).
+  assert (GS : forall pr, sprop cl k sstr lo pr = [] \/ (pq cl pr = true /\ exists v, sprop cl k sstr lo pr = [(bp_name pr, v)])).
+  { intros pr. unfold sprop, pq, has_vals. destruct (psel cl pr); cbn [negb andb]; [|now left].
+    destruct (bp_body pr) as [col| |]; cbn [BinSpecAgree.body_values]; try (now left).
+    destruct (bs_col_values sstr lo col) as [vs| | |]; try (now left). destruct (nth_error vs k) as [v|]; [right; eauto|now left]. }
+  split.
+  - (* the name *)
+    unfold name_strs at 1. rewrite BinSpecAgree.flat_map_flat_map. fold name_strs.
+    rewrite (flat_map_ext_in (rname cl k) (fun pr => name_strs (sprop cl k sstr lo pr)) P) by (intros pr Hpr; apply rname_sname; now apply HokP).
+    set (g := fun pr => name_strs (sprop cl k sstr lo pr)).
+    change (flat_map (fun x => flat_map _ (sprop cl k sstr lo x)) props) with (flat_map g props).
+    assert (GN : forall pr, g pr = [] \/ (pq cl pr = true /\ is_NAME pr = true /\ exists s0, g pr = [s0])).
+    { intros pr. unfold g. destruct (GS pr) as [E|(Hq & v & E)]; rewrite E; [now left|]. cbn [name_strs flat_map fst snd app].
+      unfold is_NAME. change NAME_PROP_NAME with NAME. destruct (bytes_eqb (bp_name pr) NAME); [|now left].
+      destruct v; try (now left). right. rewrite app_nil_r. eauto. }
+    pose proof (names_len1 cl g GN props Hu) as Hlen.
+    rewrite (perm_len1 (flat_map g P) (flat_map g props) (Permutation_flat_map g Hperm) Hlen).
+    destruct (flat_map g props) as [|x [|y r]]; [reflexivity|reflexivity|cbn in Hlen; lia].
+  - (* the property table *)
+    intros key. rewrite filter_flat_map. fold (sprop' cl k sstr lo).
+    rewrite (flat_map_ext_in (rprop cl k sstr' (fun z => phi (lo z))) (fun pr => List.map (fun kv => (fst kv, Tval phi (snd kv))) (sprop' cl k sstr lo pr)) P)
+      by (intros pr Hpr; apply rprop_sprop; [exact Hss|now apply HokP]).
+    rewrite <- map_flat_map'.
+    assert (GS' : forall pr, sprop' cl k sstr lo pr = [] \/ (pq cl pr = true /\ exists v, sprop' cl k sstr lo pr = [(bp_name pr, v)])).
+    { intros pr. unfold sprop'. destruct (GS pr) as [E|(Hq & v & E)]; rewrite E; [now left|]. cbn [filter].
+      destruct (negb (BinSpecAgree.is_name_cell (bp_name pr, v))); [right; eauto|now left]. }
+    assert (Hnd : NoDup (List.map fst (flat_map (sprop' cl k sstr lo) props))) by (apply (keys_nodup cl _ GS'); exact Hu).
+    assert (HndP : NoDup (List.map fst (flat_map (sprop' cl k sstr lo) P))).
+    { eapply Permutation_NoDup; [apply Permutation_map, Permutation_flat_map, Permutation_sym; exact Hperm|exact Hnd]. }
+    rewrite bfind_collect_nodup by (rewrite map_map; cbn [fst]; exact HndP).
+    rewrite bfind_map_snd. f_equal. apply bfind_perm; [exact HndP|]. now apply Permutation_flat_map.
+Qed.
+
+(* ================================================================ 3r. the headline, with the node's own name and property table *)
+Lemma fresh_keys cname : forall ids insts next z,
+  zfind z (fst (BinChunkFacts.fresh_insts cname ids insts next)) <> None -> zfind z insts <> None \/ In z ids.
+Proof.
+  induction ids as [|id ids IH]; intros insts next z H; [now left|]. rewrite BinChunkFacts.fresh_insts_cons in H.
+  destruct (IH _ _ z H) as [H1|H1]; [|right; now right]. destruct (Z.eq_dec z id) as [->|Hne]; [right; now left|].
+  left. now rewrite BinChunkFacts.zfind_zupd_ne in H1.
+Qed.
+
+Lemma phase1_keys d p : forall items st st1, forallb (fun it => negb (is_prop it)) items = true ->
+  run_steps d p st items = Some st1 ->
+  (forall z, zfind z (ds_insts st1) <> None -> zfind z (ds_insts st) <> None \/ In z (all_refs (bs_insts items))) /\
+  ds_sstr st1 = ds_sstr st ++ flat_map (List.map snd) (bs_sstrs items).
+Proof.
+  induction items as [|it r IH]; intros st st1 Hnp Hrun.
+  - injection Hrun as <-. split; [now left|cbn; now rewrite app_nil_r].
+  - cbn [forallb] in Hnp. apply andb_true_iff in Hnp. destruct Hnp as [Hp Hnp]. cbn [run_steps] in Hrun.
+    destruct (rstep d p st it) as [st0|] eqn:Hs; [|discriminate]. destruct (IH st0 st1 Hnp Hrun) as [K S].
+    destruct it as [l|l|c|pr|rows| |n dta]; try discriminate; cbn [rstep] in Hs; unfold bs_insts, bs_sstrs in *; cbn [flat_map app] in *;
+      fold (bs_insts r) in *; fold (bs_sstrs r) in *.
+    + destruct (forallb _ l); [|discriminate]. injection Hs as <-. now split.
+    + injection Hs as <-. cbn [ds_insts ds_sstr] in *. split; [exact K|]. now rewrite S, <- app_assoc.
+    + destruct (utf8_valid (cls_name c)); [|discriminate]. injection Hs as <-. unfold BinChunkFacts.inst_register in *.
+      pose proof (fresh_keys (cls_name c) (cls_refs c) (ds_insts st) (ds_next st)) as FK.
+      destruct (BinChunkFacts.fresh_insts (cls_name c) (cls_refs c) (ds_insts st) (ds_next st)) as [insts next]. cbn [fst ds_insts ds_sstr] in *.
+      split; [|exact S]. intros z Hz. unfold all_refs. cbn [flat_map]. destruct (K z Hz) as [H1|H1].
+      * destruct (FK z H1) as [H2|H2]; [now left|right; apply in_or_app; now left].
+      * right. apply in_or_app. now right.
+    + destruct (prnt_links (ds_insts st) (ds_roots st) rows) as [[i2 r2]| | |] eqn:E; try discriminate. injection Hs as <-.
+      destruct (prnt_links_ok_spec _ _ _ _ _ E) as [_ Hf]. cbn [ds_insts ds_sstr fst] in *. split; [|exact S].
+      intros z Hz. destruct (K z Hz) as [H1|H1]; [|now right]. left. rewrite Hf in H1. now destruct (zfind z (ds_insts st)).
+    + injection Hs as <-. now split.
+Qed.
+
+Lemma nodup_bytes_NoDup l : nodup_bytes l = true -> NoDup l.
+Proof.
+  induction l as [|x l IH]; intros H; [constructor|]. cbn [nodup_bytes] in H. apply andb_true_iff in H. destruct H as [Hx Hl].
+  constructor; [|now apply IH]. intros Hin. apply negb_true_iff in Hx.
+  assert (existsb (bytes_eqb x) l = true); [|congruence]. apply existsb_exists. exists x. split; [exact Hin|apply beq_refl].
+Qed.
+
+(* the executable conditions on the PROP chunks of the file: no column type the reader does not know (Bytecode), the Name property
+   is a UTF-8 String column, at most one value-carrying PROP per (class, property name) *)
+Definition props_file_okb (f : bs_file) : bool :=
+  forallb (fun pr => match bp_body pr with
+                     | BValues col =>
+                       (match wire_of_id (bs_col_type col) with Some _ => true | None => false end) &&
+                       (negb (is_NAME pr) || match col with KString names => forallb utf8_valid names | _ => false end)
+                     | _ => true end) (bf_props f)
+  && forallb (fun cl => nodup_bytes (List.map bp_name (filter (pq cl) (bf_props f)))) (bf_classes f).
+
+(* same name, same property table up to the canonical typing of unknown properties and the relabelling of referents; the
+   UniqueId collision rule of WeakDom::insert applies on top (uid_norm: the table itself, or the table with a fresh UniqueId) *)
+Definition node_same (phi : N -> N) (p : dec_params) (n : bs_node) (i : inst) : Prop :=
+  i_name i = bn_name n /\
+  exists tbl, BinRoundTrip.uid_norm p tbl (i_props i) /\
+              forall key, bfind key tbl = option_map (Tval phi) (bfind key (bn_props n)).
+
+Lemma same_dom_weaken phi (Q Q' : bs_node -> inst -> Prop) nodes out :
+  (forall n i, In n nodes -> In i out -> Q n i -> Q' n i) -> same_dom phi Q nodes out -> same_dom phi Q' nodes out.
+Proof.
+  intros H (A & B & C & E & F & G & I & J). repeat split; auto.
+  intros n Hn. destruct (G n Hn) as (i & Hi & H1 & H2 & H3 & H4). exists i. repeat split; auto.
+Qed.
+
+Theorem reader_decodes_spec_file d p u order cmps f P1 P2 :
+  dp_lim p = None -> file_dom_ok f = true -> props_file_okb f = true ->
+  gframes_rt p cmps (List.map (bs_enc_item rdA u) (bs_items_of order f)) ->
+  flat_map (item_of_key f) order = P1 ++ P2 ->
+  forallb (fun it => negb (is_prop it)) P1 = true -> forallb (fun it => negb (is_reg it)) P2 = true ->
+  Permutation (bs_insts P1) (bf_classes f) -> bs_prnts (P1 ++ P2) = [bf_prnt f] ->
+  Permutation (bs_props P2) (bf_props f) -> bs_sstrs P1 = match bf_sstr f with Some l => [l] | None => [] end ->
+  scan d [] 0 (P1 ++ P2) = true -> inst_prnt_ok false (P1 ++ P2) = true ->
+  scan d (bs_insts P1) (sstr_total P1) P2 = true -> forallb (prop_unknown d (bs_insts P1)) (bs_props P2) = true ->
+  exists st out nodes,
+    decode_file d p (bs_enc_header (bs_header_of f) ++ gframe_all cmps (List.map (bs_enc_item rdA u) (bs_items_of order f))) = Ok out /\
+    bspec_to_dom f = Ok nodes /\
+    same_dom (phi_of (f_kids f) (D_of st)) (node_same (phi_of (f_kids f) (D_of st)) p) nodes out.
+Proof.
+  intros Hl Hfok Hpok Hrt Hitems Hnp Hnr Hperm Hprnt Hpp Hsstr Hscan Hipo Hscan2 Hunk.
+  assert (Hnm : forallb (prop_nonmig d (bs_insts P1)) (bs_props P2) = true).
+  { apply forallb_forall. intros pr Hpr. apply prop_unknown_nonmig. exact (fa_in _ _ Hunk pr Hpr). }
+  destruct (reader_decodes_spec_file_dom d p u order cmps f P1 P2 Hl Hfok Hrt Hitems Hnp Hnr Hperm Hprnt Hscan Hipo Hscan2 Hnm)
+    as (st & out & nodes & Hrun & Hdec & Hnodes & Hsame).
+  exists st, out, nodes. split; [exact Hdec|]. split; [exact Hnodes|].
+  pose proof (file_dom_ok_sound f Hfok) as HF. destruct HF as [Hwf Hids Hrefs Hkids Hpk Hpar Hcf Htot].
+  (* the state, phase by phase *)
+  pose proof Hrun as Hrs. unfold bs_items_of in Hrs. rewrite (run_items_steps d p _ dstate0 (items_no_end f order)), Hitems, run_steps_app in Hrs.
+  destruct (run_steps d p dstate0 P1) as [st1|] eqn:Hr1; [|discriminate].
+  destruct (phase1_keys d p P1 dstate0 st1 Hnp Hr1) as [Hkeys Hss1]. cbn [ds_insts ds_sstr dstate0 app] in Hkeys, Hss1.
+  assert (Hpr : Permutation (all_refs (bs_insts P1)) (all_refs (bf_classes f))) by (unfold all_refs; now apply Permutation_flat_map).
+  assert (Hnd1 : NoDup (all_refs (bs_insts P1))) by (eapply Permutation_NoDup; [symmetry; exact Hpr|exact Hrefs]).
+  assert (Hid1 : NoDup (List.map cls_id (bs_insts P1))) by (eapply Permutation_NoDup; [symmetry; apply Permutation_map; exact Hperm|exact Hids]).
+  pose proof (items_ok_of_wf f Hwf order) as Hok. unfold bs_items_of in Hok. rewrite forallb_app, Hitems, forallb_app in Hok.
+  apply andb_true_iff in Hok. destruct Hok as [Hok _]. apply andb_true_iff in Hok. destruct Hok as [Hok1 Hok2].
+  assert (Hne1 : forallb (fun it => negb (is_end it)) P1 = true).
+  { pose proof (items_no_end f order) as H. rewrite Hitems, forallb_app in H. apply andb_true_iff in H. now destruct H. }
+  destruct (phase1_run d p P1 dstate0 st1 [] Hnp Hne1 Hr1) as [Hfr Hty]; [intros cl r []|intros c []|exact Hnd1|exact Hid1|]. cbn [app] in Hfr, Hty.
+  assert (Hreg1 : reg_inv st1 (bs_insts P1)) by (intros cl r Hcl Hr; destruct (Hfr cl r Hcl Hr) as (i & -> & _); discriminate).
+  assert (Hlen1 : length (ds_sstr st1) = sstr_total P1) by (rewrite (run_sstr_len d p P1 dstate0 st1 Hnp Hr1); reflexivity).
+  rewrite <- Hlen1 in Hscan2.
+  destruct (phase2_run d p (bs_insts P1) Hl Hnd1 Hid1 P2 st1 st Hok2 Hnr Hrs Hty Hreg1 Hscan2 Hnm) as (L2 & S2 & _).
+  set (phi := phi_of (f_kids f) (D_of st)) in *.
+  (* labels: the reader's resolution of a referent is the relabelled document label *)
+  assert (Hlo : forall z, st_label st z = phi (slabel (f_kids f) z)).
+  { intros z. destruct (in_dec Z.eq_dec z (f_kids f)) as [Hz|Hz].
+    - unfold phi. rewrite (phi_slabel (f_kids f) (D_of st) z Hz). unfold st_label, BinFinish.lab, D_of, BinFinish.dinst_of.
+      now destruct (zfind z (ds_insts st)).
+    - unfold slabel. rewrite (BinSpecAgree.index_Z_notin z (f_kids f) 1 Hz). unfold phi. rewrite (phi_zero (f_kids f) (D_of st)).
+      rewrite L2. unfold st_label. destruct (zfind z (ds_insts st1)) eqn:Ez; [|reflexivity]. exfalso.
+      destruct (Hkeys z) as [H1|H1]; [now rewrite Ez|now apply H1|]. apply Hz. eapply Permutation_in; [symmetry; exact Hpk|].
+      eapply Permutation_in; [exact Hpr|exact H1]. }
+  assert (Hsst : List.map snd (st_sstr st) = List.map snd (f_sstr_tbl f)).
+  { rewrite st_sstr_snd, S2, Hss1, Hsstr. unfold f_sstr_tbl. destruct (bf_sstr f); cbn [flat_map]; [now rewrite app_nil_r|reflexivity]. }
+  (* the file-level conditions, as propositions *)
+  unfold props_file_okb in Hpok. apply andb_true_iff in Hpok. destruct Hpok as [Hpf Huq].
+  assert (Hpfo : forall pr, In pr (bf_props f) -> prop_file_ok (f_sstr_tbl f) (slabel (f_kids f)) pr).
+  { intros pr Hprin. pose proof (fa_in _ _ Hpf pr Hprin) as Hc. cbv beta in Hc. unfold prop_file_ok.
+    rewrite Forall_forall in Htot. specialize (Htot pr Hprin). destruct (bp_body pr) as [col| |]; try exact I.
+    apply andb_true_iff in Hc. destruct Hc as [Hw Hn]. split; [now destruct (wire_of_id (bs_col_type col))|]. split.
+    - apply col_values_defined. exact Htot.
+    - intros HN. rewrite HN in Hn. cbn [negb orb] in Hn. destruct col; try discriminate. eauto. }
+  apply (same_dom_weaken phi (node_rec d f p st (bs_props P2))); [|exact Hsame].
+  intros n i _ _ (cl & k & c & pp & Hin & -> & Hcl & Hk & HR). cbv zeta in HR. destruct HR as [Hname Hun].
+  assert (Huc : NoDup (List.map bp_name (filter (pq cl) (bf_props f)))) by (apply nodup_bytes_NoDup; exact (fa_in _ _ Huq cl Hcl)).
+  assert (Hcl1 : In cl (bs_insts P1)) by (eapply Permutation_in; [symmetry; exact Hperm|exact Hcl]).
+  rewrite (fold_pstepD_unknown d (bs_insts P1) _ _ cl k Hid1 Hcl1 _ _ Hunk) in Hname, Hun.
+  rewrite (fold_pstep_ext _ _ _ cl k Hlo) in Hname, Hun.
+  destruct (fold_is_node cl k (f_sstr_tbl f) (slabel (f_kids f)) (st_sstr st) phi (bs_props P2) (bf_props f) Hsst Hpp Hpfo Huc) as [F1 F2].
+  unfold mk_node, f_ai. cbn [fst snd]. rewrite (ai_find _ _ _ _ cl k c Hrefs Hcl Hk). unfold node_same. cbn [bn_name bn_props].
+  split; [now rewrite Hname, F1|]. eexists. split; [exact Hun|exact F2].
+Qed.
+
+(* ---- (b) + F4, final form: the decoded DOM does not depend on the chunk order — in particular not on the order of the PROP chunks —
+   nor on compression, rotation encoding or INST order: two accepted encodings of the same file are both [same_dom] to the ONE
+   document DOM with [node_same]: same name, same property table (the statement no longer mentions any order) *)
+Theorem chunk_order_independent_full d p f u1 order1 cmps1 P1 P2 u2 order2 cmps2 P1' P2' :
+  dp_lim p = None -> file_dom_ok f = true -> props_file_okb f = true ->
+  gframes_rt p cmps1 (List.map (bs_enc_item rdA u1) (bs_items_of order1 f)) ->
+  gframes_rt p cmps2 (List.map (bs_enc_item rdA u2) (bs_items_of order2 f)) ->
+  flat_map (item_of_key f) order1 = P1 ++ P2 -> flat_map (item_of_key f) order2 = P1' ++ P2' ->
+  forallb (fun it => negb (is_prop it)) P1 = true -> forallb (fun it => negb (is_reg it)) P2 = true ->
+  forallb (fun it => negb (is_prop it)) P1' = true -> forallb (fun it => negb (is_reg it)) P2' = true ->
+  Permutation (bs_insts P1) (bf_classes f) -> bs_prnts (P1 ++ P2) = [bf_prnt f] ->
+  Permutation (bs_insts P1') (bf_classes f) -> bs_prnts (P1' ++ P2') = [bf_prnt f] ->
+  Permutation (bs_props P2) (bf_props f) -> bs_sstrs P1 = match bf_sstr f with Some l => [l] | None => [] end ->
+  Permutation (bs_props P2') (bf_props f) -> bs_sstrs P1' = match bf_sstr f with Some l => [l] | None => [] end ->
+  scan d [] 0 (P1 ++ P2) = true -> inst_prnt_ok false (P1 ++ P2) = true ->
+  scan d [] 0 (P1' ++ P2') = true -> inst_prnt_ok false (P1' ++ P2') = true ->
+  scan d (bs_insts P1) (sstr_total P1) P2 = true -> forallb (prop_unknown d (bs_insts P1)) (bs_props P2) = true ->
+  scan d (bs_insts P1') (sstr_total P1') P2' = true -> forallb (prop_unknown d (bs_insts P1')) (bs_props P2') = true ->
+  exists nodes st1 out1 st2 out2,
+    bspec_to_dom f = Ok nodes /\
+    decode_file d p (bs_enc_header (bs_header_of f) ++ gframe_all cmps1 (List.map (bs_enc_item rdA u1) (bs_items_of order1 f))) = Ok out1 /\
+    decode_file d p (bs_enc_header (bs_header_of f) ++ gframe_all cmps2 (List.map (bs_enc_item rdA u2) (bs_items_of order2 f))) = Ok out2 /\
+    same_dom (phi_of (f_kids f) (D_of st1)) (node_same (phi_of (f_kids f) (D_of st1)) p) nodes out1 /\
+    same_dom (phi_of (f_kids f) (D_of st2)) (node_same (phi_of (f_kids f) (D_of st2)) p) nodes out2.
+Proof.
+  intros Hl Hf Hpf R1 R2 I1 I2 A1 A2 B1 B2 C1 C2 D1 D2 K1 K2 K3 K4 E1 E2 F1 F2 G1 G2 H1 H2.
+  destruct (reader_decodes_spec_file d p u1 order1 cmps1 f P1 P2 Hl Hf Hpf R1 I1 A1 A2 C1 C2 K1 K2 E1 E2 G1 G2) as (st1 & out1 & n1 & X1 & Y1 & Z1).
+  destruct (reader_decodes_spec_file d p u2 order2 cmps2 f P1' P2' Hl Hf Hpf R2 I2 B1 B2 D1 D2 K3 K4 F1 F2 H1 H2) as (st2 & out2 & n2 & X2 & Y2 & Z2).
+  rewrite Y1 in Y2. injection Y2 as <-. exists n1, st1, out1, st2, out2. auto.
+Qed.
+
+(* ================================================================ 3s. (c) properties the database KNOWS (not migrating): whole-file corollary *)
+Section KnownProps.
+Variable d : db.
+Variable cl : bs_class.
+Variable k : nat.
+Variable sstr : list (bytes * bytes).
+Variable lo : Z -> N.
+
+(* the canonical name a PROP chunk of the class is stored under *)
+Definition cname_of (pr : bs_prop) : option bytes :=
+  match bp_body pr with
+  | BValues col =>
+    match wire_of_id (bs_col_type col) with
+    | Some ty => if is_NAME pr then None else
+                 match find_canonical_property d ty (cls_name cl) (bp_name pr) with Ok (Some (nm, _, None)) => Some nm | _ => None end
+    | None => None
+    end
+  | _ => None
+  end.
+Definition rpropD (pr : bs_prop) : list (bytes * value) :=
+  if negb (psel cl pr) then [] else
+  match bp_body pr with
+  | BValues col =>
+    match wire_of_id (bs_col_type col) with
+    | Some ty => if is_NAME pr then [] else
+                 match find_canonical_property d ty (cls_name cl) (bp_name pr) with
+                 | Ok (Some (nm, cty, None)) =>
+                   match bs_col_values sstr lo col with
+                   | Ok vals => match nth_error vals k with Some v => [(nm, retype cty v)] | None => [] end
+                   | _ => [] end
+                 | _ => []
+                 end
+    | None => []
+    end
+  | _ => []
+  end.
+
+Lemma fold_pstepD_snd : forall l acc, snd (fold_left (pstepD d sstr lo cl k) l acc) = snd acc ++ flat_map rpropD l.
+Proof.
+  induction l as [|pr l IH]; intros [nm0 ps]; [cbn; now rewrite app_nil_r|]. cbn [fold_left flat_map]. rewrite IH.
+  unfold pstepD, rpropD, psel, is_NAME. destruct (negb (N.eqb (bp_class pr) (cls_id cl))); [reflexivity|].
+  destruct (bp_body pr) as [col| |]; try reflexivity. destruct (wire_of_id (bs_col_type col)) as [ty|]; [|reflexivity].
+  destruct (bytes_eqb (bp_name pr) NAME).
+  - destruct col; try reflexivity. now destruct (nth_error l0 k).
+  - destruct (find_canonical_property d ty (cls_name cl) (bp_name pr)) as [[[[nm cty] [mg|]]|]| | |]; try reflexivity.
+    destruct (bs_col_values sstr lo col) as [vals| | |]; try reflexivity. destruct (nth_error vals k); [|reflexivity].
+    cbn [fst snd]. now rewrite <- app_assoc.
+Qed.
+
+Lemma rpropD_key pr key x : In (key, x) (rpropD pr) -> psel cl pr = true /\ cname_of pr = Some key.
+Proof.
+  unfold rpropD, cname_of. destruct (psel cl pr); cbn [negb]; [|intros []]. destruct (bp_body pr) as [col| |]; try (intros []).
+  destruct (wire_of_id (bs_col_type col)) as [ty|]; [|intros []]. destruct (is_NAME pr); [intros []|].
+  destruct (find_canonical_property d ty (cls_name cl) (bp_name pr)) as [[[[nm cty] [mg|]]|]| | |]; try (intros []).
+  destruct (bs_col_values sstr lo col) as [vals| | |]; try (intros []). destruct (nth_error vals k); [|intros []].
+  intros [E|[]]. injection E as -> _. now split.
+Qed.
+
+(* a key all of whose entries carry the same value *)
+Lemma bfind_collect_const l key x0 : In (key, x0) l -> (forall x, In (key, x) l -> x = x0) -> bfind key (collect_props l) = Some x0.
+Proof.
+  induction l as [|[k1 v1] l IH] using rev_ind; intros Hin Hall; [destruct Hin|].
+  rewrite collect_props_snoc', bfind_bupd'. destruct (bytes_eqb key k1) eqn:E.
+  - apply BinSpecFacts.bytes_eqb_eq in E. subst k1. f_equal. apply Hall. apply in_or_app. right. now left.
+  - apply IH.
+    + apply in_app_or in Hin. destruct Hin as [Hin|[Hin|[]]]; [exact Hin|]. injection Hin as -> _. now rewrite beq_refl in E.
+    + intros x Hx. apply Hall. apply in_or_app. now left.
+Qed.
+
+(* exactly one PROP chunk of the class resolves to the canonical name [nm] *)
+Definition only_prop (props : list bs_prop) (nm : bytes) (pr : bs_prop) : Prop :=
+  filter (fun pr' => psel cl pr' && match cname_of pr' with Some n' => bytes_eqb n' nm | None => false end) props = [pr].
+
+Theorem known_prop_in_fold props pr col ty nm cty vals v :
+  only_prop props nm pr -> bp_body pr = BValues col -> wire_of_id (bs_col_type col) = Some ty ->
+  find_canonical_property d ty (cls_name cl) (bp_name pr) = Ok (Some (nm, cty, None)) ->
+  bs_col_values sstr lo col = Ok vals -> nth_error vals k = Some v ->
+  bfind nm (collect_props (snd (fold_left (pstepD d sstr lo cl k) props (cls_name cl, [])))) = Some (retype cty v).
+Proof.
+  unfold only_prop. intros Hf Hbody Hw Hcp Hv Hk. rewrite fold_pstepD_snd. cbn [snd app].
+  assert (Hin : In pr props /\ psel cl pr = true /\ cname_of pr = Some nm).
+  { assert (H : In pr (filter (fun pr' => psel cl pr' && match cname_of pr' with Some n' => bytes_eqb n' nm | None => false end) props))
+      by (rewrite Hf; now left).
+    apply filter_In in H. destruct H as [H1 H2]. apply andb_true_iff in H2. destruct H2 as [H2 H3]. split; [exact H1|]. split; [exact H2|].
+    destruct (cname_of pr) as [n'|]; [|discriminate]. apply BinSpecFacts.bytes_eqb_eq in H3. now subst. }
+  destruct Hin as (Hin & Hsel & Hcn).
+  assert (Hrp : rpropD pr = [(nm, retype cty v)]).
+  { unfold rpropD. rewrite Hsel, Hbody, Hw. cbn [negb]. unfold cname_of in Hcn. rewrite Hbody, Hw in Hcn.
+    destruct (is_NAME pr); [discriminate|]. now rewrite Hcp, Hv, Hk. }
+  apply bfind_collect_const.
+  - apply in_flat_map. exists pr. split; [exact Hin|]. rewrite Hrp. now left.
+  - intros x Hx. apply in_flat_map in Hx. destruct Hx as (pr' & Hpr' & Hx). destruct (rpropD_key pr' nm x Hx) as [Hs' Hc'].
+    assert (Hpf : In pr' [pr]).
+    { rewrite <- Hf. apply filter_In. split; [exact Hpr'|]. rewrite Hs', Hc', beq_refl. reflexivity. }
+    destruct Hpf as [<-|[]]. rewrite Hrp in Hx. destruct Hx as [E|[]]. now injection E as <-.
+Qed.
+End KnownProps.
+
+(* the canonical retyping widens exactly *)
+Lemma retype_widen_int32 z : retype VT_Int64 (VInt32 z) = VInt64 z. Proof. reflexivity. Qed.
+Lemma retype_widen_float32 x : retype VT_Float64 (VFloat32 x) = VFloat64 (f64_of_f32 x). Proof. reflexivity. Qed.
+
+(* what a decoded instance holds for the properties the database knows: for the node's class [cl] and index [k], every PROP chunk
+   [pr] of the class that is the only one resolving to the canonical name [nm] (canonical type [cty], no migration) puts, under
+   [nm], the k-th value of its column retyped to [cty] *)
+Definition node_known (d : db) (f : bs_file) (p : dec_params) (st : dstate) (props : list bs_prop) (n : bs_node) (i : inst) : Prop :=
+  exists cl k c pp, In (c, pp) (bf_prnt f) /\ n = mk_node (f_kids f) (f_ai f) (c, pp) /\ In cl (bf_classes f) /\
+    nth_error (cls_refs cl) k = Some c /\
+    exists tbl, BinRoundTrip.uid_norm p tbl (i_props i) /\
+      forall pr col ty nm cty vals v,
+        only_prop d cl props nm pr -> bp_body pr = BValues col -> wire_of_id (bs_col_type col) = Some ty ->
+        find_canonical_property d ty (cls_name cl) (bp_name pr) = Ok (Some (nm, cty, None)) ->
+        bs_col_values (st_sstr st) (st_label st) col = Ok vals -> nth_error vals k = Some v ->
+        bfind nm tbl = Some (retype cty v).
+
+(* C04, last clause, for the WHOLE FILE (any database, properties known or unknown, none migrating): accepted, the structure of
+   bspec_to_dom f, and every known property stored under its canonical name with its value retyped to the canonical type — an Int32
+   column of a property declared Int64 as VInt64 of the same integer, a Float32 column of a Float64 property widened exactly *)
+Theorem known_property_whole_file d p u order cmps f P1 P2 :
+  dp_lim p = None -> file_dom_ok f = true ->
+  gframes_rt p cmps (List.map (bs_enc_item rdA u) (bs_items_of order f)) ->
+  flat_map (item_of_key f) order = P1 ++ P2 ->
+  forallb (fun it => negb (is_prop it)) P1 = true -> forallb (fun it => negb (is_reg it)) P2 = true ->
+  Permutation (bs_insts P1) (bf_classes f) -> bs_prnts (P1 ++ P2) = [bf_prnt f] ->
+  scan d [] 0 (P1 ++ P2) = true -> inst_prnt_ok false (P1 ++ P2) = true ->
+  scan d (bs_insts P1) (sstr_total P1) P2 = true -> forallb (prop_nonmig d (bs_insts P1)) (bs_props P2) = true ->
+  exists st out nodes,
+    decode_file d p (bs_enc_header (bs_header_of f) ++ gframe_all cmps (List.map (bs_enc_item rdA u) (bs_items_of order f))) = Ok out /\
+    bspec_to_dom f = Ok nodes /\
+    same_dom (phi_of (f_kids f) (D_of st)) (node_known d f p st (bs_props P2)) nodes out.
+Proof.
+  intros Hl Hfok Hrt Hitems Hnp Hnr Hperm Hprnt Hscan Hipo Hscan2 Hnm.
+  destruct (reader_decodes_spec_file_dom d p u order cmps f P1 P2 Hl Hfok Hrt Hitems Hnp Hnr Hperm Hprnt Hscan Hipo Hscan2 Hnm)
+    as (st & out & nodes & _ & Hdec & Hnodes & Hsame).
+  exists st, out, nodes. split; [exact Hdec|]. split; [exact Hnodes|].
+  apply (same_dom_weaken _ (node_rec d f p st (bs_props P2))); [|exact Hsame].
+  intros n i _ _ (cl & k & c & pp & Hin & Heq & Hcl & Hk & HR). cbv zeta in HR. destruct HR as [_ Hun].
+  exists cl, k, c, pp. repeat (split; [assumption|]). eexists. split; [exact Hun|].
+  intros pr col ty nm cty vals v Ho Hb Hw Hcp Hv Hvk.
+  exact (known_prop_in_fold d cl k (st_sstr st) (st_label st) (bs_props P2) pr col ty nm cty vals v Ho Hb Hw Hcp Hv Hvk).
+Qed.
+
+(* ---- 3p. STATUS after the second round (supersedes 3i where they differ).  THIRD ROUND: the `STILL MISSING` part below is now
+   PROVED for properties the database does not know: fold_is_node, reader_decodes_spec_file (Q = node_same: same name, same property
+   table up to retype/relabel), chunk_order_independent_full; for KNOWN non-migrating properties: pstepD, known_prop_in_fold,
+   known_property_whole_file (canonical name, canonical type, exact widening).  Still open: migrations; the identification of the
+   WHOLE table (every key) with bn_props for known properties (renaming of keys by the database).
    PROVED: forest_of_spec / forest_of_describes (the forest of children-first rows: rows_describe, NoDup, Permutation with the
    children — no longer hypotheses); file_dom_ok_sound (the executable predicate [file_dom_ok] = bs_wf && bs_doc_wf && children_first
    && SharedString indices in range); spec_dom_closed (bspec_to_dom f = Ok (map mk_node rows): label = index of the child, parent
@@ -2722,12 +3467,12 @@ Example ex_dom_hyps :
   bs_prnts (firstn 5 ex_items ++ skipn 5 ex_items)%list = [bf_prnt ex_f] /\
   scan db0 [] 0 (firstn 5 ex_items ++ skipn 5 ex_items)%list = true /\ inst_prnt_ok false (firstn 5 ex_items ++ skipn 5 ex_items)%list = true /\
   scan db0 (bs_insts (firstn 5 ex_items)) (sstr_total (firstn 5 ex_items)) (skipn 5 ex_items) = true /\
-  forallb (prop_unknown db0 (bs_insts (firstn 5 ex_items))) (bs_props (skipn 5 ex_items)) = true /\
+  forallb (prop_nonmig db0 (bs_insts (firstn 5 ex_items))) (bs_props (skipn 5 ex_items)) = true /\
   bs_insts (firstn 5 ex_items) = rev (bf_classes ex_f).
 Proof. vm_compute. repeat split; reflexivity. Qed.
 Example ex_dom_by_theorem :
   exists st out nodes, decode_file db0 ex_p (bspec_encode rdA ex_ch ex_f) = Ok out /\ bspec_to_dom ex_f = Ok nodes /\
-    same_dom (phi_of (f_kids ex_f) (D_of st)) (node_rec ex_f ex_p st (bs_props (skipn 5 ex_items))) nodes out.
+    same_dom (phi_of (f_kids ex_f) (D_of st)) (node_rec db0 ex_f ex_p st (bs_props (skipn 5 ex_items))) nodes out.
 Proof.
   destruct ex_dom_hyps as (H0 & H1 & H2 & H3 & H4 & H5 & H6 & H7 & H8 & H9).
   assert (Hrt : gframes_rt ex_p (List.map cmp_of_bool (ch_comp ex_ch))
@@ -2737,6 +3482,80 @@ Proof.
               (firstn 5 ex_items) (skipn 5 ex_items) eq_refl H0 Hrt H1 H2 H3) as (st & out & nodes & _ & Hd & Hn & Hs); try assumption.
   - rewrite H9. apply Permutation_sym, Permutation_rev.
   - exists st, out, nodes. split; [|split; [exact Hn|exact Hs]]. unfold bspec_encode, bspec_encode_chunks. rewrite bs_frame_all_gframe. exact Hd.
+Qed.
+
+(* the full headline applied: the example without its Bytecode PROP (which the reader drops: bytecode_column_skipped) *)
+Definition ex_g : bs_file :=
+  mkFile (bf_meta ex_f) (bf_sstr ex_f) (bf_classes ex_f) (removelast (bf_props ex_f)) (bf_prnt ex_f) (bf_unknown ex_f).
+Definition ex_gorder : list bs_okey := removelast ex_order.
+Definition ex_gch : bs_choices := mkChoices ex_gorder (ch_comp ex_ch) true.
+Definition ex_gitems := flat_map (item_of_key ex_g) ex_gorder.
+Example ex_full_hyps :
+  file_dom_ok ex_g = true /\ props_file_okb ex_g = true /\ bs_sizes_ok rdA ex_gch ex_g = true /\
+  ex_gitems = (firstn 5 ex_gitems ++ skipn 5 ex_gitems)%list /\
+  forallb (fun it => negb (is_prop it)) (firstn 5 ex_gitems) = true /\ forallb (fun it => negb (is_reg it)) (skipn 5 ex_gitems) = true /\
+  bs_prnts (firstn 5 ex_gitems ++ skipn 5 ex_gitems)%list = [bf_prnt ex_g] /\
+  bs_sstrs (firstn 5 ex_gitems) = match bf_sstr ex_g with Some l => [l] | None => [] end /\
+  scan db0 [] 0 (firstn 5 ex_gitems ++ skipn 5 ex_gitems)%list = true /\ inst_prnt_ok false (firstn 5 ex_gitems ++ skipn 5 ex_gitems)%list = true /\
+  scan db0 (bs_insts (firstn 5 ex_gitems)) (sstr_total (firstn 5 ex_gitems)) (skipn 5 ex_gitems) = true /\
+  forallb (prop_unknown db0 (bs_insts (firstn 5 ex_gitems))) (bs_props (skipn 5 ex_gitems)) = true /\
+  bs_insts (firstn 5 ex_gitems) = rev (bf_classes ex_g) /\
+  (* the PROP chunks are NOT in file order *)
+  List.map bp_name (bs_props (skipn 5 ex_gitems)) = [S "Target"; S "Where"; S "Name"; S "Cut"; S "X"; S "Odd"; S "Blob"] /\
+  List.map bp_name (bf_props ex_g) = [S "Name"; S "X"; S "Target"; S "Cut"; S "Odd"; S "Where"; S "Blob"].
+Proof. vm_compute. repeat split; reflexivity. Qed.
+
+Lemma perm_idx {A} (a : list A) d idx : Permutation idx (seq 0 (List.length a)) -> Permutation (List.map (fun j => nth j a d) idx) a.
+Proof. intros H. pose proof (Permutation_map (fun j => nth j a d) H) as Hp. now rewrite (map_nth_seq a d) in Hp. Qed.
+
+Example ex_full_by_theorem :
+  exists st out nodes, decode_file db0 ex_p (bspec_encode rdA ex_gch ex_g) = Ok out /\ bspec_to_dom ex_g = Ok nodes /\
+    same_dom (phi_of (f_kids ex_g) (D_of st)) (node_same (phi_of (f_kids ex_g) (D_of st)) ex_p) nodes out.
+Proof.
+  destruct ex_full_hyps as (H0 & H0' & Hsz & H1 & H2 & H3 & H4 & Hs & H5 & H6 & H7 & H8 & H9 & _).
+  assert (Hrt : gframes_rt ex_p (List.map cmp_of_bool (ch_comp ex_gch))
+                  (List.map (bs_enc_item rdA (ch_rot_ids ex_gch)) (bs_items_of ex_gorder ex_g))).
+  { apply literal_frames_rt; [exact ex_inflater|exact Hsz]. }
+  destruct (reader_decodes_spec_file db0 ex_p (ch_rot_ids ex_gch) ex_gorder (List.map cmp_of_bool (ch_comp ex_gch)) ex_g
+              (firstn 5 ex_gitems) (skipn 5 ex_gitems) eq_refl H0 H0' Hrt H1 H2 H3) as (st & out & nodes & Hd & Hn & Hsd); try assumption.
+  - rewrite H9. apply Permutation_sym, Permutation_rev.
+  - replace (bs_props (skipn 5 ex_gitems)) with (List.map (fun j => nth j (bf_props ex_g) (mkProp 0 [] BTruncated)) [2; 5; 0; 3; 1; 4; 6]%nat)
+      by (vm_compute; reflexivity).
+    apply perm_idx. apply NoDup_Permutation_bis; [repeat constructor; cbn; intuition discriminate|cbn; lia|]. intros x Hx. vm_compute in Hx |- *. tauto.
+  - exists st, out, nodes. split; [|split; [exact Hn|exact Hsd]]. unfold bspec_encode, bspec_encode_chunks. rewrite bs_frame_all_gframe. exact Hd.
+Qed.
+
+(* (c) applied: a database that declares Folder.X as Int64; the file stores X as an Int32 column *)
+Definition db1 : db := mkDb [mkCD "Folder" None false [mkPD "X" (DValue 14) (KCanon PSerializes)] []] [].
+Definition ex_clF : bs_class := mkClass 7 (S "Folder") false [(-5)%Z; 100%Z] [].
+Definition ex_prX : bs_prop := mkProp 7 (S "X") (BValues (KInt32 [(-1)%Z; 70000%Z])).
+Example ex_known_hyps :
+  find_canonical_property db1 WInt32 (S "Folder") (S "X") = Ok (Some (S "X", VT_Int64, None)) /\
+  scan db1 [] 0 (firstn 5 ex_gitems ++ skipn 5 ex_gitems)%list = true /\
+  scan db1 (bs_insts (firstn 5 ex_gitems)) (sstr_total (firstn 5 ex_gitems)) (skipn 5 ex_gitems) = true /\
+  forallb (prop_nonmig db1 (bs_insts (firstn 5 ex_gitems))) (bs_props (skipn 5 ex_gitems)) = true /\
+  only_prop db1 ex_clF (bs_props (skipn 5 ex_gitems)) (S "X") ex_prX.
+Proof. vm_compute. repeat split; reflexivity. Qed.
+Example ex_known_computed :
+  match decode_file db1 ex_p (bspec_encode rdA ex_gch ex_g) with
+  | Ok out => List.map (fun i => (i_name i, bfind (S "X") (i_props i))) out
+              = [(S "Workspace", None); (S "B", Some (VInt64 70000)); (S "A", Some (VInt64 (-1)))]
+  | _ => False
+  end.
+Proof. vm_compute. reflexivity. Qed.
+Example ex_known_by_theorem :
+  exists st out nodes, decode_file db1 ex_p (bspec_encode rdA ex_gch ex_g) = Ok out /\ bspec_to_dom ex_g = Ok nodes /\
+    same_dom (phi_of (f_kids ex_g) (D_of st)) (node_known db1 ex_g ex_p st (bs_props (skipn 5 ex_gitems))) nodes out.
+Proof.
+  destruct ex_full_hyps as (H0 & _ & Hsz & H1 & H2 & H3 & H4 & _ & _ & H6 & _ & _ & H9 & _).
+  destruct ex_known_hyps as (_ & K1 & K2 & K3 & _).
+  assert (Hrt : gframes_rt ex_p (List.map cmp_of_bool (ch_comp ex_gch))
+                  (List.map (bs_enc_item rdA (ch_rot_ids ex_gch)) (bs_items_of ex_gorder ex_g))).
+  { apply literal_frames_rt; [exact ex_inflater|exact Hsz]. }
+  destruct (known_property_whole_file db1 ex_p (ch_rot_ids ex_gch) ex_gorder (List.map cmp_of_bool (ch_comp ex_gch)) ex_g
+              (firstn 5 ex_gitems) (skipn 5 ex_gitems) eq_refl H0 Hrt H1 H2 H3) as (st & out & nodes & Hd & Hn & Hsd); try assumption.
+  - rewrite H9. apply Permutation_sym, Permutation_rev.
+  - exists st, out, nodes. split; [|split; [exact Hn|exact Hsd]]. unfold bspec_encode, bspec_encode_chunks. rewrite bs_frame_all_gframe. exact Hd.
 Qed.
 
 (* ---------------------------------------------------------------- recorded disagreements (C04 violation candidates) *)
